@@ -9,6 +9,12 @@ Local Open Scope N_scope.
 (* ====================================================================================== *)
 (* Part 0.  One unfolding of [unm]: the loops as top-level fixpoints over the recursive    *)
 (*          call [rec], and the dispatch split into small per-token-kind definitions.      *)
+(*          [unm_S : unm pf (S f) o R t cur ts = ustep pf o R (unm pf f o R) t cur ts] is   *)
+(*          proved by [reflexivity]: the definitions below are a transcription of the body  *)
+(*          of [unm] and the kernel checks that they are convertible with it.  If the model *)
+(*          changes, [unm_S] fails (after ~15 s of failed unification) and the loop that    *)
+(*          changed has to be transcribed again; everything after Part 0 only uses [unm_S], *)
+(*          [unm_O] and treats [unm] as opaque.                                             *)
 (* ====================================================================================== *)
 
 Section Step.
@@ -1920,3 +1926,699 @@ Example roundtrip_ex_thm : forall pf o R ts rest,
 Proof.
   intros pf o R ts rest H. apply roundtrip_simple_partial; try assumption; vm_compute; reflexivity.
 Qed.
+
+(* ====================================================================================== *)
+(* Part 6.  C16: struct decoding is by name; unknown fields are skipped                    *)
+(* ====================================================================================== *)
+
+(* ---- assignment by name as a left fold over the writer's fields ---- *)
+Definition wfield := ((bytes * bool * ty) * gval)%type.
+
+Definition wstep (rfs : list (bytes * bool * ty)) (vals : list gval) (p : wfield) : list gval :=
+  if fexported (fst p) then
+    match find_field (fname (fst p)) rfs 0 with
+    | Some (i, ft) => set_nth i (normal ft (snd p)) vals
+    | None => vals
+    end
+  else vals.
+
+Definition apply_fields (rfs : list (bytes * bool * ty)) (wl : list wfield) (vals : list gval) : list gval :=
+  fold_left (wstep rfs) wl vals.
+
+Definition assign_l (wl : list wfield) (rfs : list (bytes * bool * ty)) (rvals : list gval) : list gval :=
+  map (fun '(rf, rv) =>
+         match find (fun '(wf, _) => fexported wf && fexported rf && bytes_eqb (fname wf) (fname rf)) wl with
+         | Some (wf, wv) => normal (snd rf) wv
+         | None => rv
+         end) (combine rfs rvals).
+
+Lemma assign_by_name_l wfs rfs wvals rvals :
+  assign_by_name wfs rfs wvals rvals = assign_l (combine wfs wvals) rfs rvals.
+Proof. reflexivity. Qed.
+
+Lemma existsb_false {A} (f : A -> bool) l : existsb f l = false -> forall x, In x l -> f x = false.
+Proof.
+  intros H x Hx. destruct (f x) eqn:E; [|reflexivity].
+  assert (existsb f l = true) by (apply existsb_exists; exists x; split; assumption). congruence.
+Qed.
+
+Lemma names_nodup_cons f l :
+  names_nodup (f :: l) = negb (existsb (fun g => bytes_eqb (fname f) (fname g)) l) && names_nodup l.
+Proof. reflexivity. Qed.
+
+Lemma set_nth_length {A} (x : A) : forall l i, length (set_nth i x l) = length l.
+Proof. induction l as [|y l IH]; intros [|i]; cbn [set_nth length]; try reflexivity. now rewrite IH. Qed.
+
+Lemma nth_set_nth_other {A} (x d : A) : forall l i j, i <> j -> nth j (set_nth i x l) d = nth j l d.
+Proof.
+  induction l as [|y l IH]; intros [|i] [|j] Hne; cbn [set_nth nth]; try reflexivity; try congruence.
+  apply IH. congruence.
+Qed.
+
+Lemma find_field_ge name : forall fs k i ft, find_field name fs k = Some (i, ft) -> (k <= i)%nat.
+Proof.
+  induction fs as [|f fs IH]; intros k i ft; cbn [find_field]; [discriminate|].
+  destruct (fexported f && bytes_eqb (fname f) name); [intros [= <- _]; lia|].
+  intros H. apply IH in H. lia.
+Qed.
+
+Lemma find_field_inj n1 n2 : forall fs k i ft1 ft2,
+  find_field n1 fs k = Some (i, ft1) -> find_field n2 fs k = Some (i, ft2) -> n1 = n2.
+Proof.
+  induction fs as [|f fs IH]; intros k i ft1 ft2; cbn [find_field]; [discriminate|].
+  destruct (fexported f && bytes_eqb (fname f) n1) eqn:E1; destruct (fexported f && bytes_eqb (fname f) n2) eqn:E2.
+  - intros _ _. apply andb_true_iff in E1, E2. destruct E1 as [_ E1], E2 as [_ E2].
+    apply bytes_eqb_true in E1, E2. congruence.
+  - intros [= <- _] H. apply find_field_ge in H. lia.
+  - intros H [= <- _]. apply find_field_ge in H. lia.
+  - apply IH.
+Qed.
+
+Lemma map_snd_combine (rfs : list (bytes * bool * ty)) : forall (vals : list gval), length vals = length rfs ->
+  map (fun '(rf, rv) => rv) (combine rfs vals) = vals.
+Proof.
+  induction rfs as [|rf rfs IH]; intros [|v vals] Hl; cbn in Hl |- *; try reflexivity; try discriminate.
+  f_equal. apply IH. lia.
+Qed.
+
+Section AssignStep.
+Variable wf : bytes * bool * ty.
+Variable wv : gval.
+Variable wl : list wfield.
+Hypothesis Hfresh : forall p, In p wl -> bytes_eqb (fname wf) (fname (fst p)) = false.
+
+Definition Fa (l : list wfield) : (bytes * bool * ty) * gval -> gval :=
+  fun '(rf, rv) =>
+    match find (fun '(wf, _) => fexported wf && fexported rf && bytes_eqb (fname wf) (fname rf)) l with
+    | Some (wf, wv) => normal (snd rf) wv
+    | None => rv
+    end.
+
+Lemma Fa_cons rf rv :
+  Fa ((wf, wv) :: wl) (rf, rv) =
+  if fexported wf && fexported rf && bytes_eqb (fname wf) (fname rf) then normal (snd rf) wv else Fa wl (rf, rv).
+Proof. unfold Fa. cbn [find]. destruct (fexported wf && fexported rf && bytes_eqb (fname wf) (fname rf)); reflexivity. Qed.
+
+Lemma Fa_none rf rv : bytes_eqb (fname wf) (fname rf) = true -> Fa wl (rf, rv) = rv.
+Proof.
+  intros E. apply bytes_eqb_true in E. unfold Fa.
+  assert (H : find (fun '(wf0, _) => fexported wf0 && fexported rf && bytes_eqb (fname wf0) (fname rf)) wl = None).
+  { clear - Hfresh E. induction wl as [|[wf' wv'] l IH]; [reflexivity|]. cbn [find].
+    pose proof (Hfresh (wf', wv') (or_introl eq_refl)) as Hf. cbn [fst] in Hf.
+    assert (Hh : bytes_eqb (fname wf') (fname rf) = false) by (rewrite <- E, bytes_eqb_sym; exact Hf).
+    rewrite Hh, andb_false_r. apply IH. intros p Hp. apply Hfresh. right. exact Hp. }
+  rewrite H. reflexivity.
+Qed.
+
+Lemma assign_step_gen : fexported wf = true ->
+  forall rfs vals k, length vals = length rfs -> names_nodup rfs = true ->
+  map (Fa ((wf, wv) :: wl)) (combine rfs vals) =
+  map (Fa wl) (combine rfs match find_field (fname wf) rfs k with
+                           | Some (i, ft) => set_nth (i - k) (normal ft wv) vals
+                           | None => vals
+                           end).
+Proof.
+  intros Hex. induction rfs as [|rf rfs IH]; intros vals k Hl Hnd.
+  - destruct vals; reflexivity.
+  - destruct vals as [|v vals]; [discriminate Hl|]. cbn [length] in Hl.
+    rewrite names_nodup_cons in Hnd. apply andb_true_iff in Hnd. destruct Hnd as [Hrf Hnd].
+    apply negb_true_iff in Hrf. cbn [find_field].
+    destruct (fexported rf && bytes_eqb (fname rf) (fname wf)) eqn:Ec.
+    + apply andb_true_iff in Ec. destruct Ec as [Hrex Ec]. rewrite Nat.sub_diag. cbn [set_nth combine map].
+      rewrite Fa_cons, Hex, Hrex, (bytes_eqb_sym (fname wf)), Ec. cbn [andb].
+      rewrite Fa_none by (rewrite bytes_eqb_sym; exact Ec). f_equal.
+      apply map_ext_in. intros [rf' rv'] Hin. apply in_combine_l in Hin.
+      rewrite Fa_cons. apply bytes_eqb_true in Ec. rewrite <- Ec.
+      rewrite (existsb_false _ _ Hrf rf' Hin), andb_false_r. reflexivity.
+    + assert (Hhead : Fa ((wf, wv) :: wl) (rf, v) = Fa wl (rf, v)).
+      { rewrite Fa_cons, Hex, (bytes_eqb_sym (fname wf)). cbn [andb]. rewrite Ec. reflexivity. }
+      specialize (IH vals (S k) ltac:(lia) Hnd).
+      destruct (find_field (fname wf) rfs (S k)) as [[i ft]|] eqn:Ef.
+      * pose proof (find_field_ge _ _ _ _ _ Ef) as Hge.
+        replace (i - k)%nat with (S (i - S k)) by lia. cbn [set_nth combine map]. rewrite Hhead, IH. reflexivity.
+      * cbn [combine map]. rewrite Hhead, IH. reflexivity.
+Qed.
+
+End AssignStep.
+
+Lemma apply_assign rfs : names_nodup rfs = true ->
+  forall wl vals, names_nodup (map fst wl) = true -> length vals = length rfs ->
+  apply_fields rfs wl vals = assign_l wl rfs vals.
+Proof.
+  intros Hnd. induction wl as [|[wf wv] wl IH]; intros vals Hwnd Hl.
+  - cbn [apply_fields fold_left]. unfold assign_l. cbn [find]. symmetry. apply map_snd_combine, Hl.
+  - cbn [map fst] in Hwnd. rewrite names_nodup_cons in Hwnd. apply andb_true_iff in Hwnd. destruct Hwnd as [Hfr Hwnd].
+    apply negb_true_iff in Hfr.
+    change (apply_fields rfs ((wf, wv) :: wl) vals) with (apply_fields rfs wl (wstep rfs vals (wf, wv))).
+    rewrite IH; [|exact Hwnd|].
+    + unfold wstep. cbn [fst snd]. change (assign_l ((wf, wv) :: wl) rfs vals) with (map (Fa ((wf, wv) :: wl)) (combine rfs vals)).
+      destruct (fexported wf) eqn:Hex.
+      * rewrite (assign_step_gen wf wv wl) with (k := 0%nat); try assumption.
+        -- destruct (find_field (fname wf) rfs 0) as [[i ft]|]; [rewrite Nat.sub_0_r|]; reflexivity.
+        -- intros p Hp. apply (existsb_false _ _ Hfr (fst p)). apply in_map, Hp.
+      * apply map_ext. intros [rf rv]. rewrite Fa_cons, Hex. reflexivity.
+    + unfold wstep. cbn [fst snd]. destruct (fexported wf); [|exact Hl].
+      destruct (find_field (fname wf) rfs 0) as [[i ft]|]; [|exact Hl]. rewrite set_nth_length. exact Hl.
+Qed.
+
+(* ---- every marshalled stream is exactly one balanced value: skipValue consumes it ---- *)
+Section gval_ind3.
+  Variable P : gval -> Prop.
+  Hypothesis Hbool : forall b, P (GBool b).
+  Hypothesis Hint : forall z, P (GInt z).
+  Hypothesis Huint : forall n, P (GUint n).
+  Hypothesis Hf32 : forall b, P (GF32 b).
+  Hypothesis Hf64 : forall b, P (GF64 b).
+  Hypothesis Hstr : forall s, P (GStr s).
+  Hypothesis Hbytes : forall n s, P (GBytes n s).
+  Hypothesis Hlist : forall n l, Forall P l -> P (GList n l).
+  Hypothesis Hmap : forall n es, Forall (fun e => P (fst e) /\ P (snd e)) es -> P (GMap n es).
+  Hypothesis Hstruct : forall l, Forall P l -> P (GStruct l).
+  Hypothesis Hpnil : P (GPtr None).
+  Hypothesis Hptr : forall x, P x -> P (GPtr (Some x)).
+  Hypothesis Hanil : P (GAny None).
+  Hypothesis Hany : forall t x, P x -> P (GAny (Some (t, x))).
+  Hypothesis Hfnil : P (GFunc None).
+  Hypothesis Hfunc : forall l, Forall P l -> P (GFunc (Some l)).
+  Hypothesis Htime : forall e, P (GTime e).
+  Fixpoint gval_ind3 (v : gval) : P v :=
+    let all := (fix go (l : list gval) : Forall P l :=
+                  match l with [] => Forall_nil _ | x :: r => Forall_cons _ (gval_ind3 x) (go r) end) in
+    match v with
+    | GBool b => Hbool b | GInt z => Hint z | GUint n => Huint n | GF32 b => Hf32 b | GF64 b => Hf64 b
+    | GStr s => Hstr s | GBytes n s => Hbytes n s
+    | GList n l => Hlist n l (all l)
+    | GMap n es =>
+        Hmap n es ((fix go (l : list (gval * gval)) : Forall (fun e => P (fst e) /\ P (snd e)) l :=
+                      match l with
+                      | [] => Forall_nil _
+                      | e :: r => Forall_cons _ (conj (gval_ind3 (fst e)) (gval_ind3 (snd e))) (go r)
+                      end) es)
+    | GStruct l => Hstruct l (all l)
+    | GPtr None => Hpnil
+    | GPtr (Some x) => Hptr x (gval_ind3 x)
+    | GAny None => Hanil
+    | GAny (Some (t, x)) => Hany t x (gval_ind3 x)
+    | GFunc None => Hfnil
+    | GFunc (Some l) => Hfunc l (all l)
+    | GTime e => Htime e
+    end.
+End gval_ind3.
+
+(* a sequence of complete values / exactly one complete value *)
+Definition bal (ts : list token) : Prop :=
+  forall d rest, skip_value (S d) (ts ++ rest) = skip_value (S d) rest.
+Definition val1 (ts : list token) : Prop :=
+  (forall rest, skip_value 0 (ts ++ rest) = Ok rest) /\ bal ts.
+
+Lemma bal_nil : bal [].
+Proof. intros d rest. reflexivity. Qed.
+Lemma bal_app a b : bal a -> bal b -> bal (a ++ b).
+Proof. intros Ha Hb d rest. rewrite <- app_assoc, Ha, Hb. reflexivity. Qed.
+Lemma val1_bal ts : val1 ts -> bal ts.
+Proof. intros [_ H]; exact H. Qed.
+
+Lemma val1_leaf tk : is_leaf_token tk = true -> val1 [tk].
+Proof.
+  unfold is_leaf_token. intros H. apply andb_true_iff in H. destruct H as [H H3].
+  apply andb_true_iff in H. destruct H as [H1 H2]. apply negb_true_iff in H1, H2, H3.
+  split; [intros rest|intros d rest]; cbn [app skip_value]; rewrite H1, H3, H2; reflexivity.
+Qed.
+
+Lemma val1_comp ko kc body :
+  is_open_kind ko = true -> is_open_kind kc = false -> (kc =? KTypeName) = false -> is_end_kind kc = true ->
+  bal body -> val1 (T ko VNone :: body ++ [T kc VNone]).
+Proof.
+  intros Ho Hc1 Hc2 Hc3 Hb. split; [intros rest|intros d rest]; cbn [app skip_value kind]; rewrite Ho;
+    rewrite <- app_assoc, Hb; cbn [app skip_value kind]; rewrite Hc1, Hc2, Hc3; reflexivity.
+Qed.
+
+Lemma val1_typename n ts : val1 ts -> val1 (T KTypeName (VStr n) :: ts).
+Proof. intros [H1 H2]. split; [intros rest|intros d rest]; cbn [app skip_value kind]; [apply H1|apply H2]. Qed.
+
+Lemma val1_prefix t ts : val1 ts -> val1 (reg_prefix t ++ ts).
+Proof.
+  intros H. destruct (reg_prefix_cases t) as [E|[n E]]; rewrite E; cbn [app]; [exact H|apply val1_typename, H].
+Qed.
+
+Definition mentries (o : copts) (kt vt : ty) : list (gval * gval) -> res (list entry) :=
+  fix go (l : list (gval * gval)) : res (list entry) :=
+    match l with
+    | [] => Ok []
+    | (k, x) :: r =>
+        bind (marshal default_opts kt k) (fun sortkey =>
+        if bad_map_key sortkey then Err EBadMapKey else
+        bind (go r) (fun rest =>
+        bind (marshal o kt k) (fun kts =>
+        bind (marshal o vt x) (fun vts => Ok ((sortkey, kts, vts) :: rest)))))
+    end.
+Definition kv_ty (t : ty) : ty * ty := match underlying t with TMap k v => (k, v) | _ => (TAny, TAny) end.
+
+Lemma marshal_map o t n es :
+  marshal o t (GMap n es) =
+  bind (let '(kt, vt) := kv_ty t in
+        bind (mentries o kt vt es) (fun es' =>
+        Ok (T KMap VNone :: flat_map (fun e => snd (fst e) ++ snd e) (sort_entries es') ++ [T KMapEnd VNone])))
+       (fun ts => Ok (reg_prefix t ++ ts)).
+Proof. reflexivity. Qed.
+
+Definition mouts (o : copts) : list gval -> list ty -> res (list token) :=
+  fix go (l : list gval) (ts : list ty) : res (list token) :=
+    match l, ts with
+    | x :: r', xt :: tr => bind (marshal o xt x) (fun a => bind (go r' tr) (fun b => Ok (a ++ b)))
+    | _, _ => Ok []
+    end.
+Definition outs_of (t : ty) : list ty := match underlying t with TFunc outs => outs | _ => [] end.
+
+Lemma marshal_func o t items :
+  marshal o t (GFunc (Some items)) =
+  bind (if ignore_funcs o then Ok [T KNil VNone]
+        else bind (mouts o items (outs_of t)) (fun body => Ok (T KTuple VNone :: body ++ [T KTupleEnd VNone])))
+       (fun ts => Ok (reg_prefix t ++ ts)).
+Proof. reflexivity. Qed.
+
+Definition val1_of (x : gval) : Prop := forall o t ts, marshal o t x = Ok ts -> val1 ts.
+
+Lemma melems_bal o et : forall l, Forall val1_of l -> forall body, melems o et l = Ok body -> bal body.
+Proof.
+  induction 1 as [|x l Hx _ IH]; intros body Hm.
+  - injection Hm as <-. apply bal_nil.
+  - change (melems o et (x :: l)) with (bind (marshal o et x) (fun a => bind (melems o et l) (fun b => Ok (a ++ b)))) in Hm.
+    apply bind_ok in Hm. destruct Hm as (a & Ha & Hm). apply bind_ok in Hm. destruct Hm as (b & Hb & Hm).
+    injection Hm as <-. apply bal_app; [apply val1_bal, (Hx _ _ _ Ha)|apply IH, Hb].
+Qed.
+
+Lemma mouts_bal o : forall l, Forall val1_of l -> forall outs body, mouts o l outs = Ok body -> bal body.
+Proof.
+  induction 1 as [|x l Hx _ IH]; intros outs body Hm.
+  - injection Hm as <-. apply bal_nil.
+  - destruct outs as [|xt outs]; [injection Hm as <-; apply bal_nil|].
+    change (mouts o (x :: l) (xt :: outs)) with (bind (marshal o xt x) (fun a => bind (mouts o l outs) (fun b => Ok (a ++ b)))) in Hm.
+    apply bind_ok in Hm. destruct Hm as (a & Ha & Hm). apply bind_ok in Hm. destruct Hm as (b & Hb & Hm).
+    injection Hm as <-. apply bal_app; [apply val1_bal, (Hx _ _ _ Ha)|apply (IH _ _ Hb)].
+Qed.
+
+Lemma mfields_bal o : forall l, Forall val1_of l -> forall fs body, mfields o l fs = Ok body -> bal body.
+Proof.
+  induction 1 as [|x l Hx _ IH]; intros fs body Hm.
+  - injection Hm as <-. apply bal_nil.
+  - destruct fs as [|fd fs]; [injection Hm as <-; apply bal_nil|].
+    change (mfields o (x :: l) (fd :: fs)) with
+      (if skip_empty o && (is_zero (snd fd) x || (is_slice_kind (snd fd) && Nat.eqb (glen x) 0)) then mfields o l fs
+       else if negb (fexported fd) then mfields o l fs
+       else bind (marshal o (snd fd) x) (fun a =>
+            bind (mfields o l fs) (fun b => Ok (T KString (VStr (fname fd)) :: a ++ b)))) in Hm.
+    destruct (skip_empty o && (is_zero (snd fd) x || (is_slice_kind (snd fd) && Nat.eqb (glen x) 0))); [apply (IH _ _ Hm)|].
+    destruct (negb (fexported fd)); [apply (IH _ _ Hm)|].
+    apply bind_ok in Hm. destruct Hm as (a & Ha & Hm). apply bind_ok in Hm. destruct Hm as (b & Hb & Hm).
+    injection Hm as <-.
+    change (T KString (VStr (fname fd)) :: a ++ b) with ([T KString (VStr (fname fd))] ++ a ++ b).
+    apply bal_app; [apply val1_bal, val1_leaf; reflexivity|].
+    apply bal_app; [apply val1_bal, (Hx _ _ _ Ha)|apply (IH _ _ Hb)].
+Qed.
+
+Definition entry_bal (e : entry) : Prop := bal (snd (fst e)) /\ bal (snd e).
+
+Lemma insert_entry_bal e l : entry_bal e -> Forall entry_bal l -> Forall entry_bal (insert_entry e l).
+Proof.
+  intros He. induction 1 as [|x l Hx Hl IH]; cbn [insert_entry]; [constructor; [exact He|constructor]|].
+  destruct (key_le e x).
+  - constructor; [exact He|]. constructor; assumption.
+  - constructor; assumption.
+Qed.
+Lemma sort_entries_bal l : Forall entry_bal l -> Forall entry_bal (sort_entries l).
+Proof.
+  induction 1 as [|x l Hx _ IH]; [constructor|]. unfold sort_entries. cbn [fold_right].
+  apply insert_entry_bal; assumption.
+Qed.
+Lemma entries_flat_bal l : Forall entry_bal l -> bal (flat_map (fun e => snd (fst e) ++ snd e) l).
+Proof.
+  induction 1 as [|x l [H1 H2] _ IH]; cbn [flat_map]; [apply bal_nil|].
+  apply bal_app; [apply bal_app; assumption|exact IH].
+Qed.
+
+Lemma mentries_bal o kt vt : forall es, Forall (fun e => val1_of (fst e) /\ val1_of (snd e)) es ->
+  forall es', mentries o kt vt es = Ok es' -> Forall entry_bal es'.
+Proof.
+  induction 1 as [|[k x] es [Hk Hx] _ IH]; intros es' Hm.
+  - injection Hm as <-. constructor.
+  - change (mentries o kt vt ((k, x) :: es)) with
+      (bind (marshal default_opts kt k) (fun sortkey =>
+       if bad_map_key sortkey then Err EBadMapKey else
+       bind (mentries o kt vt es) (fun rest =>
+       bind (marshal o kt k) (fun kts =>
+       bind (marshal o vt x) (fun vts => Ok ((sortkey, kts, vts) :: rest)))))) in Hm.
+    apply bind_ok in Hm. destruct Hm as (sk & _ & Hm). destruct (bad_map_key sk); [discriminate|].
+    apply bind_ok in Hm. destruct Hm as (rest & Hr & Hm).
+    apply bind_ok in Hm. destruct Hm as (kts & Hkts & Hm).
+    apply bind_ok in Hm. destruct Hm as (vts & Hvts & Hm). injection Hm as <-.
+    constructor; [|apply IH, Hr]. cbn [fst snd] in *.
+    split; cbn [fst snd]; apply val1_bal; [apply (Hk _ _ _ Hkts)|apply (Hx _ _ _ Hvts)].
+Qed.
+
+Ltac leaf1 Hm := cbn [bind] in Hm; injection Hm as <-; apply val1_prefix, val1_leaf; reflexivity.
+
+Theorem marshal_val1 : forall v, val1_of v.
+Proof.
+  induction v as [b|z|n|b|b|s|n s|n l IH|n es IH|l IH| |x IH| |t' x IH| |l IH|e] using gval_ind3;
+    intros o t ts Hm.
+  - cbn [marshal] in Hm. leaf1 Hm.
+  - cbn [marshal] in Hm. destruct (underlying t); try discriminate Hm. destruct w; leaf1 Hm.
+  - cbn [marshal] in Hm. destruct (underlying t); try discriminate Hm; try destruct w; leaf1 Hm.
+  - cbn [marshal] in Hm. destruct (f32_is_nan b); leaf1 Hm.
+  - cbn [marshal] in Hm. destruct (f64_is_nan b); leaf1 Hm.
+  - cbn [marshal] in Hm. leaf1 Hm.
+  - cbn [marshal] in Hm. leaf1 Hm.
+  - rewrite marshal_list in Hm. apply bind_ok in Hm. destruct Hm as (ts0 & Hm & Hts). injection Hts as <-.
+    apply bind_ok in Hm. destruct Hm as (body & Hm & Hts). injection Hts as <-.
+    apply val1_prefix, val1_comp; try reflexivity. eapply melems_bal; eassumption.
+  - rewrite marshal_map in Hm. apply bind_ok in Hm. destruct Hm as (ts0 & Hm & Hts). injection Hts as <-.
+    destruct (kv_ty t) as [kt vt].
+    apply bind_ok in Hm. destruct Hm as (es' & Hm & Hts). injection Hts as <-.
+    apply val1_prefix, val1_comp; try reflexivity.
+    apply entries_flat_bal, sort_entries_bal. eapply mentries_bal; eassumption.
+  - rewrite marshal_struct in Hm. apply bind_ok in Hm. destruct Hm as (ts0 & Hm & Hts). injection Hts as <-.
+    apply bind_ok in Hm. destruct Hm as (body & Hm & Hts). injection Hts as <-.
+    apply val1_prefix, val1_comp; try reflexivity. eapply mfields_bal; eassumption.
+  - cbn [marshal] in Hm. leaf1 Hm.
+  - rewrite marshal_ptr in Hm. apply bind_ok in Hm. destruct Hm as (ts0 & Hm & Hts). injection Hts as <-.
+    apply val1_prefix, (IH _ _ _ Hm).
+  - cbn [marshal] in Hm. leaf1 Hm.
+  - cbn [marshal] in Hm. apply bind_ok in Hm. destruct Hm as (ts0 & Hm & Hts). injection Hts as <-.
+    apply val1_prefix, (IH _ _ _ Hm).
+  - cbn [marshal] in Hm. destruct (ignore_funcs o); [leaf1 Hm|].
+    cbn [bind] in Hm. injection Hm as <-. apply val1_prefix.
+    apply (val1_comp KTuple KTupleEnd []); try reflexivity. apply bal_nil.
+  - rewrite marshal_func in Hm. apply bind_ok in Hm. destruct Hm as (ts0 & Hm & Hts). injection Hts as <-.
+    destruct (ignore_funcs o); [injection Hm as <-; apply val1_prefix, val1_leaf; reflexivity|].
+    apply bind_ok in Hm. destruct Hm as (body & Hm & Hts). injection Hts as <-.
+    apply val1_prefix, val1_comp; try reflexivity. eapply mouts_bal; eassumption.
+  - cbn [marshal] in Hm. leaf1 Hm.
+Qed.
+
+(* skipValue consumes exactly the stream of any marshalled value *)
+Corollary marshal_skip o t v ts rest : marshal o t v = Ok ts -> skip_value 0 (ts ++ rest) = Ok rest.
+Proof. intros H. apply (marshal_val1 v o t ts H). Qed.
+
+(* ---- one iteration of struct_loop on a field name ---- *)
+Section FieldSteps.
+Variable o : copts.
+Variable rec : rec_t.
+Hypothesis Hname : forall s cur rest', rec TString cur (T KString (VStr s) :: rest') = Ok (GStr s, rest').
+
+Lemma struct_loop_known g fs depr vals name i ft rest :
+  find_field name fs 0 = Some (i, ft) ->
+  struct_loop o rec (S g) fs depr vals (T KString (VStr name) :: rest) =
+  bind (rec ft (nth i vals (zero ft)) rest) (fun r => struct_loop o rec g fs depr (set_nth i (fst r) vals) (snd r)).
+Proof.
+  intros Hf. cbn [struct_loop kind]. change (KString =? KObjectEnd) with false. cbn beta iota.
+  rewrite Hname. cbn [bind fst snd]. rewrite Hf. reflexivity.
+Qed.
+
+(* non-strict mode: a field the reader does not have is skipped (skipValue: one balanced value) *)
+Lemma struct_loop_unknown_skipped g fs depr vals name a rest :
+  strict o = false -> find_field name fs 0 = None ->
+  skip_value 0 (a ++ rest) = Ok rest ->
+  struct_loop o rec (S g) fs depr vals (T KString (VStr name) :: a ++ rest) = struct_loop o rec g fs depr vals rest.
+Proof.
+  intros Hs Hf Hsk. cbn [struct_loop kind]. change (KString =? KObjectEnd) with false. cbn beta iota.
+  rewrite Hname. cbn [bind fst snd]. rewrite Hf, Hs. cbn [andb]. rewrite Hsk. reflexivity.
+Qed.
+
+(* strict mode *)
+Lemma struct_loop_strict_unknown g fs depr vals name rest :
+  strict o = true -> find_field name fs 0 = None -> existsb (bytes_eqb name) depr = false ->
+  struct_loop o rec (S g) fs depr vals (T KString (VStr name) :: rest) = Err EUnknownField.
+Proof.
+  intros Hs Hf Hd. cbn [struct_loop kind]. change (KString =? KObjectEnd) with false. cbn beta iota.
+  rewrite Hname. cbn [bind fst snd]. rewrite Hf, Hs, Hd. reflexivity.
+Qed.
+
+Lemma struct_loop_strict_deprecated g fs depr vals name a rest :
+  find_field name fs 0 = None -> existsb (bytes_eqb name) depr = true ->
+  skip_value 0 (a ++ rest) = Ok rest ->
+  struct_loop o rec (S g) fs depr vals (T KString (VStr name) :: a ++ rest) = struct_loop o rec g fs depr vals rest.
+Proof.
+  intros Hf Hd Hsk. cbn [struct_loop kind]. change (KString =? KObjectEnd) with false. cbn beta iota.
+  rewrite Hname. cbn [bind fst snd]. rewrite Hf, Hd. cbn [negb]. rewrite andb_false_r.
+  rewrite Hsk. reflexivity.
+Qed.
+
+(* ---- the whole object written from a writer struct ---- *)
+Variable rfs : list (bytes * bool * ty).
+Variable depr : list bytes.
+Hypothesis Hnonstrict : strict o = false.
+
+Lemma struct_loop_byname : forall wvals, Forall (elem_ok rec) wvals ->
+  forall wfs vals body,
+  fields_typed wvals wfs = true -> names_nodup wfs = true ->
+  forallb (fun f => wf_bytesb (fname f) && wf_ty (snd f)) wfs = true ->
+  mfields default_opts wvals wfs = Ok body ->
+  (forall wf wv i ft, In (wf, wv) (combine wfs wvals) -> fexported wf = true ->
+     find_field (fname wf) rfs 0 = Some (i, ft) ->
+     ft = snd wf /\ nth i vals (zero ft) = zero ft /\
+     simple_ty ft = true /\ reg_ok ft = true /\ no_ptr_to_nil wv = true) ->
+  forall g rest, (length body < g)%nat ->
+  struct_loop o rec g rfs depr vals (body ++ T KObjectEnd VNone :: rest)
+  = Ok (apply_fields rfs (combine wfs wvals) vals, rest).
+Proof.
+  induction 1 as [|x l Hx _ IH]; intros wfs vals body Hty Hnd Hwf Hm Hcom g rest Hg.
+  - destruct wfs as [|fd wfs]; [|discriminate Hty]. injection Hm as <-.
+    destruct g as [|g]; [clear - Hg; cbn in Hg; lia|]. reflexivity.
+  - destruct wfs as [|fd wfs]; [discriminate Hty|].
+    change (fields_typed (x :: l) (fd :: wfs)) with (has_type (snd fd) x && fields_typed l wfs) in Hty.
+    apply andb_true_iff in Hty. destruct Hty as [Htx Htl].
+    cbn [forallb] in Hwf.
+    apply andb_true_iff in Hwf. destruct Hwf as [Hwx Hwl]. apply andb_true_iff in Hwx. destruct Hwx as [_ Hwx].
+    rewrite names_nodup_cons in Hnd. apply andb_true_iff in Hnd. destruct Hnd as [Hfr Hnd]. apply negb_true_iff in Hfr.
+    apply mfields_cons_inv in Hm.
+    cbn [combine]. change (apply_fields rfs ((fd, x) :: combine wfs l) vals)
+      with (apply_fields rfs (combine wfs l) (wstep rfs vals (fd, x))).
+    unfold wstep. cbn [fst snd].
+    destruct (fexported fd) eqn:Hex.
+    + destruct Hm as (a & b & Ha & Hb & ->).
+      destruct g as [|g]; [clear - Hg; cbn [length] in Hg; lia|]. cbn [app].
+      assert (Hg' : (length b < g)%nat) by (clear - Hg; cbn [length] in Hg; rewrite app_length in Hg; lia).
+      destruct (find_field (fname fd) rfs 0) as [[i ft]|] eqn:Hff.
+      * destruct (Hcom fd x i ft (or_introl eq_refl) Hex Hff) as (-> & Hz & Hsx & Hrx & Hnx).
+        rewrite (struct_loop_known _ _ _ _ _ _ _ _ Hff). rewrite Hz, <- app_assoc.
+        rewrite (Hx (snd fd) a _ Hwx Hsx Hrx Htx Hnx Ha). cbn [bind fst snd].
+        apply IH; try assumption.
+        intros wf wv i' ft' Hin Hex' Hff'.
+        destruct (Hcom wf wv i' ft' (or_intror Hin) Hex' Hff') as (-> & Hz' & Hrest). split; [reflexivity|].
+        split; [|exact Hrest].
+        rewrite nth_set_nth_other; [exact Hz'|]. intros ->.
+        pose proof (find_field_inj _ _ _ _ _ _ _ Hff Hff') as Hn.
+        apply in_combine_l in Hin. pose proof (existsb_false _ _ Hfr wf Hin) as Hne. cbn beta in Hne.
+        rewrite Hn, bytes_eqb_refl in Hne. discriminate Hne.
+      * rewrite <- app_assoc.
+        rewrite (struct_loop_unknown_skipped _ _ _ _ _ _ _ Hnonstrict Hff (marshal_skip _ _ _ _ _ Ha)).
+        apply IH; try assumption.
+        intros wf wv i' ft' Hin. apply (Hcom wf wv i' ft'). right. exact Hin.
+    + apply IH; try assumption.
+      intros wf wv i' ft' Hin. apply (Hcom wf wv i' ft'). right. exact Hin.
+Qed.
+
+End FieldSteps.
+
+(* ---- top-level statements ---- *)
+Lemma fields_typed_combine : forall l fs, fields_typed l fs = true -> map fst (combine fs l) = fs.
+Proof.
+  induction l as [|x l IH]; intros [|fd fs] H; try reflexivity; try discriminate H.
+  change (fields_typed (x :: l) (fd :: fs)) with (has_type (snd fd) x && fields_typed l fs) in H.
+  apply andb_true_iff in H. destruct H as [_ H]. cbn [combine map fst]. f_equal. apply IH, H.
+Qed.
+
+Lemma unm_typename_struct pf f o R t fs cur n rest :
+  underlying t = TStruct fs ->
+  unm pf (S f) o R t cur (T KTypeName (VStr n) :: rest) = unm pf f o R t cur rest.
+Proof.
+  intros Hut. rewrite unm_S. generalize (unm pf f o R). intros rec.
+  unfold ustep, conv_tok, ptr_or_dispatch, dispatch. cbn [kind val]. rewrite Hut. reflexivity.
+Qed.
+
+(* item 6.  Reading an object written from struct W into struct Rt (non-strict mode): fields are
+   matched by name in any order, reader-only fields keep their content, writer-only fields are
+   skipped whatever their type (maps, interfaces, funcs included).
+   Correction w.r.t. the statement asked for (see [by_name_refuted]): the reader's CURRENT content
+   of a common field must be that field's zero value, because unmarshalling MERGES into a non-zero
+   target (slices are appended to, Nil leaves a non-nil pointer in place, ...).  The round-trip
+   side conditions (simple type, reg_ok, no pointer to nil) are required of the common fields only. *)
+Theorem by_name_fuel pf o R W Rt wfs rfs wvals rvals ts rest f :
+  strict o = false ->
+  underlying W = TStruct wfs -> underlying Rt = TStruct rfs ->
+  wf_ty W = true -> wf_ty Rt = true ->
+  has_type W (GStruct wvals) = true ->
+  length rvals = length rfs ->
+  marshal default_opts W (GStruct wvals) = Ok ts ->
+  (forall wf wv i ft, In (wf, wv) (combine wfs wvals) -> fexported wf = true ->
+     find_field (fname wf) rfs 0 = Some (i, ft) ->
+     ft = snd wf /\ nth i rvals (zero ft) = zero ft /\
+     simple_ty ft = true /\ reg_ok ft = true /\ no_ptr_to_nil wv = true) ->
+  (2 * vsize (GStruct wvals) < f)%nat ->
+  unm pf f o R Rt (GStruct rvals) (ts ++ rest) = Ok (GStruct (assign_by_name wfs rfs wvals rvals), rest).
+Proof.
+  intros Hns HW HR Hwf HwfR Hty Hlen Hm Hcom Hf.
+  pose proof (wf_underlying _ Hwf) as Hwu. pose proof (wf_underlying _ HwfR) as HwR.
+  rewrite HW in Hwu. rewrite HR in HwR.
+  rewrite wf_ty_struct in Hwu, HwR. apply andb_true_iff in Hwu, HwR.
+  destruct Hwu as [Hwfs Hnd]. destruct HwR as [_ HndR].
+  rewrite has_type_struct, HW in Hty.
+  rewrite marshal_struct in Hm. unfold fields_of in Hm. rewrite HW in Hm.
+  apply bind_ok in Hm. destruct Hm as (ts0 & Hm & Hts). injection Hts as <-.
+  apply bind_ok in Hm. destruct Hm as (body & Hm & Hts). injection Hts as <-.
+  rewrite vsize_struct in Hf.
+  destruct f as [|[|f']]; [clear - Hf; lia|clear - Hf; lia|].
+  assert (Hstep : unm pf (S f') o R Rt (GStruct rvals) (T KObject VNone :: body ++ T KObjectEnd VNone :: rest)
+                  = Ok (GStruct (assign_by_name wfs rfs wvals rvals), rest)).
+  { rewrite (unm_struct_step pf o R _ _ _ _ _ HR).
+    assert (Hnm : forall s cur rest', unm pf f' o R TString cur (T KString (VStr s) :: rest') = Ok (GStr s, rest')).
+    { destruct f' as [|f'']; [clear - Hf; lia|]. intros. apply unm_name. }
+    assert (Hel : Forall (elem_ok (unm pf f' o R)) wvals).
+    { apply rt_elem_ok; [|clear - Hf; lia]. clear. induction wvals; constructor; [apply roundtrip_all|assumption]. }
+    rewrite (struct_loop_byname o (unm pf f' o R) Hnm rfs (depr_of Rt) Hns wvals Hel wfs rvals body
+               Hty Hnd Hwfs Hm Hcom).
+    - cbn [bind fst snd]. rewrite assign_by_name_l. rewrite apply_assign; [reflexivity|exact HndR| |exact Hlen].
+      rewrite (fields_typed_combine _ _ Hty). exact Hnd.
+    - rewrite app_length. cbn [length]. clear. lia. }
+  rewrite <- !app_assoc. cbn [app]. rewrite <- !app_assoc. cbn [app].
+  destruct (reg_prefix_cases W) as [E|[n E]]; rewrite E; cbn [app].
+  - apply (unm_fuel_mono pf o R (S f') _ _ _ _ Hstep); [discriminate|]. apply Nat.le_succ_diag_r.
+  - rewrite (unm_typename_struct pf _ o R Rt rfs _ n _ HR). exact Hstep.
+Qed.
+
+Theorem by_name_partial pf o R W Rt wfs rfs wvals rvals ts rest :
+  strict o = false ->
+  underlying W = TStruct wfs -> underlying Rt = TStruct rfs ->
+  wf_ty W = true -> wf_ty Rt = true ->
+  has_type W (GStruct wvals) = true ->
+  length rvals = length rfs ->
+  marshal default_opts W (GStruct wvals) = Ok ts ->
+  (forall wf wv i ft, In (wf, wv) (combine wfs wvals) -> fexported wf = true ->
+     find_field (fname wf) rfs 0 = Some (i, ft) ->
+     ft = snd wf /\ nth i rvals (zero ft) = zero ft /\
+     simple_ty ft = true /\ reg_ok ft = true /\ no_ptr_to_nil wv = true) ->
+  exists f, unm pf f o R Rt (GStruct rvals) (ts ++ rest)
+            = Ok (GStruct (assign_by_name wfs rfs wvals rvals), rest).
+Proof.
+  intros. exists (S (2 * vsize (GStruct wvals))). eapply by_name_fuel; try eassumption. lia.
+Qed.
+
+(* strict mode: an unknown, non-deprecated field name is rejected ... *)
+Theorem strict_unknown_rejected pf f o R t fs cur name rest :
+  strict o = true -> underlying t = TStruct fs ->
+  find_field name fs 0 = None -> existsb (bytes_eqb name) (depr_of t) = false ->
+  unm pf (S (S f)) o R t cur (T KObject VNone :: T KString (VStr name) :: rest) = Err EUnknownField.
+Proof.
+  intros Hs Hut Hf Hd. rewrite (unm_struct_step pf o R _ _ _ _ _ Hut).
+  rewrite struct_loop_strict_unknown; try assumption; [reflexivity|].
+  intros. apply unm_name.
+Qed.
+
+(* ... at any position in the object (stated on the loop) ... *)
+Theorem strict_unknown_rejected_loop pf f o R g fs depr vals name rest :
+  strict o = true -> find_field name fs 0 = None -> existsb (bytes_eqb name) depr = false ->
+  struct_loop o (unm pf (S f) o R) (S g) fs depr vals (T KString (VStr name) :: rest) = Err EUnknownField.
+Proof. intros. apply struct_loop_strict_unknown; try assumption. intros. apply unm_name. Qed.
+
+(* ... and a deprecated one is skipped (whatever the mode), here for the stream of any marshalled value *)
+Theorem strict_deprecated_skipped pf f o R g fs depr vals name ot wt wv a rest :
+  find_field name fs 0 = None -> existsb (bytes_eqb name) depr = true ->
+  marshal ot wt wv = Ok a ->
+  struct_loop o (unm pf (S f) o R) (S g) fs depr vals (T KString (VStr name) :: a ++ rest)
+  = struct_loop o (unm pf (S f) o R) g fs depr vals rest.
+Proof.
+  intros Hf Hd Ha. eapply struct_loop_strict_deprecated; try eassumption; [intros; apply unm_name|].
+  eapply marshal_skip, Ha.
+Qed.
+
+Theorem unknown_field_skipped pf f o R g fs depr vals name ot wt wv a rest :
+  strict o = false -> find_field name fs 0 = None ->
+  marshal ot wt wv = Ok a ->
+  struct_loop o (unm pf (S f) o R) (S g) fs depr vals (T KString (VStr name) :: a ++ rest)
+  = struct_loop o (unm pf (S f) o R) g fs depr vals rest.
+Proof.
+  intros Hs Hf Ha. eapply struct_loop_unknown_skipped; try eassumption; [intros; apply unm_name|].
+  eapply marshal_skip, Ha.
+Qed.
+
+(* ---- examples ---- *)
+(* writer: A int8, B []bool, C string and M map[string]any (both unknown to the reader), d (unexported),
+   E *bool; registered *)
+Definition ExWfs : list (bytes * bool * ty) :=
+  [([65], true, TInt W8); ([66], true, TSlice TBool); ([67], true, TString); ([100], false, TBool); ([69], true, TPtr TBool);
+   ([77], true, TMap TString TAny)].
+Definition ExW : ty := TNamed [87] true [] (TStruct ExWfs).
+Definition ex_wvals : list gval :=
+  [GInt 5; GList false [GBool true]; GStr [1; 2]; GBool true; GPtr None;
+   GMap false [(GStr [1], GAny (Some (TSlice TBool, GList false [GBool true])))]].
+(* reader: E, Z (absent from the writer), B, A, c (unexported), in another order *)
+Definition ExRfs : list (bytes * bool * ty) :=
+  [([69], true, TPtr TBool); ([90], true, TInt W16); ([66], true, TSlice TBool); ([65], true, TInt W8); ([67], false, TString)].
+Definition ExR : ty := TStruct ExRfs.
+Definition ex_rvals : list gval := [GPtr None; GInt 77; GList true []; GInt 0; GStr [9]].
+Definition ex_rvals_dirty : list gval := [GPtr (Some (GBool false)); GInt 77; GList false [GBool false]; GInt 3; GStr [9]].
+
+Example by_name_ex_assign :
+  assign_by_name ExWfs ExRfs ex_wvals ex_rvals = [GPtr None; GInt 77; GList false [GBool true]; GInt 5; GStr [9]].
+Proof. vm_compute. reflexivity. Qed.
+
+Example by_name_ex pf o R ts rest :
+  strict o = false -> marshal default_opts ExW (GStruct ex_wvals) = Ok ts ->
+  exists f, unm pf f o R ExR (GStruct ex_rvals) (ts ++ rest)
+            = Ok (GStruct [GPtr None; GInt 77; GList false [GBool true]; GInt 5; GStr [9]], rest).
+Proof.
+  intros Hs Hm. rewrite <- by_name_ex_assign.
+  apply (by_name_partial pf o R ExW ExR ExWfs ExRfs); try assumption; try (vm_compute; reflexivity).
+  intros wf wv i ft Hin Hex Hff. cbn in Hin.
+  repeat (destruct Hin as [Hin|Hin]; [injection Hin as <- <-; vm_compute in Hff; try discriminate Hff;
+          injection Hff as <- <-; repeat split; reflexivity|]). contradiction.
+Qed.
+
+(* the unrestricted statement (arbitrary current content in the reader's common fields) is false *)
+Definition ex_ts : list token :=
+  Eval vm_compute in match marshal default_opts ExW (GStruct ex_wvals) with Ok ts => ts | _ => [] end.
+
+Theorem by_name_refuted :
+  exists pf o R W Rt wfs rfs wvals rvals ts,
+    strict o = false /\ underlying W = TStruct wfs /\ underlying Rt = TStruct rfs /\
+    wf_ty W = true /\ wf_ty Rt = true /\ simple_ty Rt = true /\ reg_ok Rt = true /\
+    has_type W (GStruct wvals) = true /\ has_type Rt (GStruct rvals) = true /\
+    no_ptr_to_nil (GStruct wvals) = true /\ no_ptr_to_nil (GStruct rvals) = true /\
+    (forall wf wv i ft, In (wf, wv) (combine wfs wvals) -> fexported wf = true ->
+       find_field (fname wf) rfs 0 = Some (i, ft) ->
+       ft = snd wf /\ simple_ty ft = true /\ reg_ok ft = true /\ no_ptr_to_nil wv = true) /\
+    marshal default_opts W (GStruct wvals) = Ok ts /\
+    forall f, unm pf f o R Rt (GStruct rvals) (ts ++ []) <> Ok (GStruct (assign_by_name wfs rfs wvals rvals), []).
+Proof.
+  exists (fun _ _ => None), default_opts, [], ExW, ExR, ExWfs, ExRfs, ex_wvals, ex_rvals_dirty, ex_ts.
+  split; [reflexivity|]. split; [reflexivity|]. split; [reflexivity|].
+  do 8 (split; [vm_compute; reflexivity|]).
+  split.
+  { intros wf wv i ft Hin Hex Hff. cbn in Hin.
+    repeat (destruct Hin as [Hin|Hin]; [injection Hin as <- <-; vm_compute in Hff; try discriminate Hff;
+            injection Hff as <- <-; repeat split; reflexivity|]). contradiction. }
+  split; [vm_compute; reflexivity|].
+  eapply (unm_not_from _ _ _ _ _ _ 20%nat); [vm_compute; reflexivity|discriminate| |discriminate].
+  vm_compute. discriminate.
+Qed.
+
+(* strict mode on the same stream: C and M are unknown to the reader; declaring them deprecated
+   (SBDeprecatedFields) makes the strict reader skip them *)
+Example strict_ex :
+  forall ts, marshal default_opts ExW (GStruct ex_wvals) = Ok ts ->
+  unm (fun _ _ => None) 20 (Opts false true false) [] ExR (GStruct ex_rvals) ts = Err EUnknownField /\
+  unm (fun _ _ => None) 20 (Opts false true false) [] (TNamed [82] false [[67]; [77]] ExR) (GStruct ex_rvals) ts
+  = Ok (GStruct [GPtr None; GInt 77; GList false [GBool true]; GInt 5; GStr [9]], []).
+Proof. intros ts H. vm_compute in H. injection H as <-. split; vm_compute; reflexivity. Qed.
+
+(* all the main theorems at once (one traversal of the large [unm] term instead of two dozen) *)
+Definition UnmarshalP_main_theorems :=
+  (unm_S, unm_fuel_mono, unm_total_bound, unm_total, unm_total_additive_refuted, unm_suffix, unm_consumes,
+   roundtrip_all, roundtrip_simple_fuel, roundtrip_simple_partial, roundtrip_simple_exact,
+   roundtrip_simple_refuted, roundtrip_simple_refuted_time, roundtrip_ex_thm,
+   marshal_val1, marshal_skip, apply_assign, by_name_fuel, by_name_partial, by_name_refuted, by_name_ex,
+   strict_unknown_rejected, strict_unknown_rejected_loop, strict_deprecated_skipped, unknown_field_skipped,
+   scalar_by_set_scalar, scalar_mismatch, scalar_match,
+   nil_leaves_untouched, end_token_rejected, end_token_time, empty_is_eof, empty_time_mismatch).
+Print Assumptions UnmarshalP_main_theorems.
